@@ -36,3 +36,8 @@ pub fn consts() -> Consts {
 		mpp_timeout_ticks: mgr::MPP_TIMEOUT_TICKS,
 	}
 }
+
+/// Hooks for the transport (BOLT-8) engine.
+pub mod transport;
+/// Hooks for the codec engines (wire messages, onion failure packets).
+pub mod codec;
